@@ -41,6 +41,8 @@ VARIANTS = [
      'edits': [(O, "    profile = protein.get_charge_profile(conformation=conformation,\n                                         grid=protein.options.grid)", "    profile = protein.get_charge_profile(conformation=conformation)")]},
     {'name': 'window-not-passed', 'rule': 'C10.R5',
      'edits': [(O, "        protein, conformation=conformation, reference=reference,\n        window=protein.options.window)", "        protein, conformation=conformation, reference=reference)")]},
-    {'name': 'grid-with-round-silent', 'expect': 'pass',
+    {'name': 'grid-with-round-overshoots', 'rule': 'C10.R1',
      'edits': [(L, "num_steps = int((max_ - min_) / step + 1e-9)", "num_steps = round((max_ - min_) / step)")]},
+    {'name': 'grid-with-floor-silent', 'expect': 'pass',
+     'edits': [(L, "num_steps = int((max_ - min_) / step + 1e-9)", "num_steps = math.floor((max_ - min_) / step + 1e-9)")]},
 ]
